@@ -45,7 +45,8 @@ Seeds == {
     [kind |-> "cols", cols |-> <<"a">>, args |-> <<<<"s", None>>>>],                                             \* one row holding None
     [kind |-> "recs", recs |-> <<<<<<"a", V1>>>>, <<<<"b", VX>>>>>>],                                            \* records with different keys
     [kind |-> "recs", recs |-> <<<<<<"a", V2>>, <<"b", None>>>>, <<<<"a", V2>>, <<"b", V1>>>>, <<<<"b", V1>>, <<"a", VX>>>>>>],
-    [kind |-> "rows", hdrs |-> <<"a", "c">>, rows |-> <<<<V1, V2>>, <<None, VX>>>>]                               \* rows + headers
+    [kind |-> "rows", hdrs |-> <<"a", "c">>, rows |-> <<<<V1, V2>>, <<None, VX>>>>],                              \* rows + headers
+    [kind |-> "cols", cols |-> <<"key", "a">>, args |-> <<<<"l", <<VX, V2>>>>, <<"l", <<V1, None>>>>>>]             \* a column called 'key'
 }
 Construct(s) == CASE s.kind = "cols" -> FromCols(s.cols, s.args)
                   [] s.kind = "recs" -> FromRecords(s.recs)
@@ -89,7 +90,8 @@ ProjectT(t, cs) == IF \E k \in 1..Len(cs) : ~HasCol(t, cs[k]) THEN Err("KeyError
 FnApply(f, row) == CASE f = "copy_a"   -> row.a                                        \* lambda a: a
                      [] f = "a_or_2"   -> IF IsNone(row.a) THEN V2 ELSE row.a            \* lambda a: 2 if a is None else a
                      [] f = "const_x"  -> VX                                             \* lambda: 'x'
-FnNeeds(f) == IF f = "const_x" THEN {} ELSE {"a"}
+                     [] f = "copy_key" -> row.key                                        \* lambda key: key   (a column that is called 'key')
+FnNeeds(f) == IF f = "const_x" THEN {} ELSE IF f = "copy_key" THEN {"key"} ELSE {"a"}
 \* d(c = f): a new table with the derived column
 DeriveT(t, c, f) == IF NR(t) > 0 /\ ~(FnNeeds(f) \subseteq ColSet(t)) THEN Err("TypeError")
                     ELSE IF t.cols = <<>> THEN Ok(Tbl(<<c>>, <<>>))
@@ -103,6 +105,10 @@ DoT(t, cs) == IF \E k \in 1..Len(cs) : ~HasCol(t, cs[k]) THEN Err("KeyError")
 RenameT(t, c, c2) == IF ~HasCol(t, c) THEN Ok(t)
                      ELSE Ok(Tbl([k \in 1..Len(t.cols) |-> IF t.cols[k] = c THEN c2 ELSE t.cols[k]],
                                  [i \in 1..Len(t.rows) |-> [cc \in (ColSet(t) \ {c}) \cup {c2} |-> IF cc = c2 THEN t.rows[i][c] ELSE t.rows[i][cc]]]))
+\* d.relabel(a = 'b', b = 'a'): renames are simultaneous, so a swap is a swap
+SwapT(t, c, c2) == IF ~(HasCol(t, c) /\ HasCol(t, c2)) THEN Ok(t)
+                   ELSE Ok(Tbl([k \in 1..Len(t.cols) |-> IF t.cols[k] = c THEN c2 ELSE IF t.cols[k] = c2 THEN c ELSE t.cols[k]],
+                               [i \in 1..Len(t.rows) |-> [cc \in ColSet(t) |-> IF cc = c THEN t.rows[i][c2] ELSE IF cc = c2 THEN t.rows[i][c] ELSE t.rows[i][cc]]]))
 \* concatenation: rows of t then rows of u, the union of the columns, None where a side lacks one
 ConcatT(t, u) == LET cs == t.cols \o SelectSeq(u.cols, LAMBDA x : x \notin ColSet(t))
                      pad(r, have) == [cc \in Range(cs) |-> IF cc \in have THEN r[cc] ELSE None] IN
